@@ -276,7 +276,12 @@ func (p *Prog) BlockOps(f *Func) []*BlockOp {
 			}
 		case *ast.UnaryExpr:
 			if s.Op == token.ARROW && !inSelectComm[s] {
-				ops = append(ops, &BlockOp{F: f, Ast: s, Node: g.NodeOf(s), Kind: "recv", Class: "D", Desc: "recv " + p.chanDesc(f, s.X)})
+				// a bare receive from a timer or ticker channel is a bounded wait
+				if isT, dur := p.isTimerChan(f, s.X); isT {
+					ops = append(ops, &BlockOp{F: f, Ast: s, Node: g.NodeOf(s), Kind: "recv", Class: "B", Desc: "recv timer(" + exprStr(dur) + ")", Timer: exprStr(dur), TimerK: durationConst(info, dur)})
+				} else {
+					ops = append(ops, &BlockOp{F: f, Ast: s, Node: g.NodeOf(s), Kind: "recv", Class: "D", Desc: "recv " + p.chanDesc(f, s.X)})
+				}
 			}
 		case *ast.RangeStmt:
 			if t := info.TypeOf(s.X); t != nil {
